@@ -87,6 +87,8 @@ func mkReply(r *Rng, kind string, req *radius.Packet, wire, sec []byte, marker i
 	return nil
 }
 
+var c05Clients = map[string]*radius.Client{}
+
 type c05Case struct {
 	kinds []string
 	max   int
@@ -131,7 +133,14 @@ func runExchange(c *Ctx, r *Rng, cs c05Case, idx int) {
 			pc.WriteTo(d, addr)
 		}
 	}()
-	cl := &radius.Client{Retry: 0, MaxPacketErrors: cs.max, InsecureSkipVerify: cs.skip}
+	// one Client value per configuration serves all its exchanges, as an application would use it: the error budget
+	// is per call, so nothing may carry over
+	ck := fmt.Sprintf("%d/%v", cs.max, cs.skip)
+	cl := c05Clients[ck]
+	if cl == nil {
+		cl = &radius.Client{Retry: 0, MaxPacketErrors: cs.max, InsecureSkipVerify: cs.skip}
+		c05Clients[ck] = cl
+	}
 	ctx, cancel := context.WithTimeout(context.Background(), 10*time.Second)
 	got, gerr := cl.Exchange(ctx, req, pc.LocalAddr().String())
 	timedOut := ctx.Err() != nil
@@ -173,7 +182,7 @@ func runExchange(c *Ctx, r *Rng, cs c05Case, idx int) {
 
 func init() {
 	props["C05"] = func(c *Ctx) {
-		c.Res.Rule = "real Client.Exchange over loopback UDP against a scripted peer that answers the first request with a history of datagrams (kinds: authentic, authentic filling the 4096-byte buffer exactly, authentic with another identifier octet, bitflip, wrong-secret, answer-to-another-request, truncated, padded beyond Length, malformed attribute, random bytes, empty, header-only, longer than the read buffer) followed by an authentic sentinel; histories 0..8 long x MaxPacketErrors in {-1,0,1,2,3,9} x InsecureSkipVerify x request code {1,4,12,40,43}; thorough adds every history of length <= 3 over the kinds. Outcome (returned packet / error class) compared with the loop model and the verdict specification. non-trivial = history containing at least one bad datagram"
+		c.Res.Rule = "real Client.Exchange over loopback UDP against a scripted peer that answers the first request with a history of datagrams (kinds: authentic, authentic filling the 4096-byte buffer exactly, authentic with another identifier octet, bitflip, wrong-secret, answer-to-another-request, truncated, padded beyond Length, malformed attribute, random bytes, empty, header-only, longer than the read buffer) followed by an authentic sentinel; one Client value per (MaxPacketErrors, InsecureSkipVerify) pair is reused for all its exchanges; histories 0..8 long x MaxPacketErrors in {-1,0,1,2,3,9} x InsecureSkipVerify x request code {1,4,12,40,43}; thorough adds every history of length <= 3 over the kinds. Outcome (returned packet / error class) compared with the loop model and the verdict specification. non-trivial = history containing at least one bad datagram"
 		r := c.Rng.Fork()
 		maxes := []int{-1, 0, 1, 2, 3, 9}
 		codes := []int{1, 4, 12, 40, 43}
